@@ -3,6 +3,7 @@ package mbapp
 import (
 	"context"
 	"fmt"
+	"math"
 	"runtime"
 	"sync/atomic"
 	"time"
@@ -63,7 +64,7 @@ func New[A p2p.Addr, Pub any](x p2p.SecureSwarm[A, Pub], mtu int, opts ...Option
 func (s *Swarm[A, Pub]) Ask(ctx context.Context, resp []byte, dst A, req p2p.IOVec) (int, error) {
 	ctx, cf := context.WithTimeout(ctx, maxAskWait)
 	defer cf()
-	if p2p.VecSize(req) > s.mtu {
+	if p2p.VecSize(req) > s.MTU() {
 		return 0, p2p.ErrMTUExceeded
 	}
 	// create ask in map
@@ -101,7 +102,7 @@ func (s *Swarm[A, Pub]) Ask(ctx context.Context, resp []byte, dst A, req p2p.IOV
 }
 
 func (s *Swarm[A, Pub]) Tell(ctx context.Context, dst A, msg p2p.IOVec) error {
-	if p2p.VecSize(msg) > s.mtu {
+	if p2p.VecSize(msg) > s.MTU() {
 		return p2p.ErrMTUExceeded
 	}
 	return s.send(ctx, dst, sendParams{
@@ -142,6 +143,13 @@ func (s *Swarm[A, Pub]) LookupPublicKey(ctx context.Context, x A) (Pub, error) {
 }
 
 func (s *Swarm[A, Pub]) MTU() int {
+	// the part count travels as a uint16: at most 65535 parts per message
+	if max := math.MaxUint16 * (s.inner.MTU() - HeaderSize); max < s.mtu {
+		if max < 0 {
+			return 0
+		}
+		return max
+	}
 	return s.mtu
 }
 
@@ -264,6 +272,9 @@ func (s *Swarm[A, Pub]) send(ctx context.Context, dst A, params sendParams) erro
 
 	mtu := s.inner.MTU()
 	partSize := (mtu - HeaderSize)
+	if partSize < 1 {
+		return p2p.ErrMTUExceeded
+	}
 	totalSize := p2p.VecSize(params.m)
 	partCount := totalSize / partSize
 	if partSize*partCount < totalSize {
